@@ -10,7 +10,7 @@ dst=/verif/seeded/$pid-$m
 wt=$(mktemp -d /tmp/seed.XXXXXX)
 git -C /repo worktree add -q --detach "$wt" HEAD
 demo=$(ls $src/*_test.go | head -1)
-demopath=$(grep -oE "demo path: [^ ]+" $src/notes.md | head -1 | sed "s/demo path: //; s/`//g")
+demopath=$(grep -oE 'demo path: [^ ]+' $src/notes.md | head -1 | sed 's/demo path: //' | tr -d '`*')
 [ -z "$demopath" ] && demopath=$(basename $demo)
 demodir=$(dirname "$demopath")
 log=$(mktemp)
